@@ -265,7 +265,10 @@ theorem prepareSync_facts {hash : Bytes → Nat} {debug : Bool} {S : St} {T : Wa
         if x.2.diff.cleared then none else some x.1) ∧
       (∀ k d, ds[k]? = some d → needsAlloc d →
         (alloc (hashN hash) ALLOC_ATTEMPTS (run (hashN hash) ALLOC_ATTEMPTS (viewOf S.mm T.pages) ((ds.take k).map opOf))
-          (pidN d.pid)).isSome = true) := by
+          (pidN d.pid)).isSome = true) ∧
+      res.cells.length = ds.length ∧
+      (∀ x ∈ pairs ds res.cells, x.2.bucket = .known x.1 ∨ x.2.bucket = .depSet x.1 ∨
+        (x.2.diff.cleared = false ∧ (x.2.bucket = .fresh ∨ x.2.bucket = .depUnset))) := by
   obtain ⟨w0, a, cs, mp, hch, hrun, hmp, hperm, hmm, hocc, _⟩ :=
     prepareSync_ok (fun d hd => (hC.typed d hd).page) h
   have hok0 : (acc0 S w0).mm.Ok := hB.wf.ok
@@ -274,7 +277,7 @@ theorem prepareSync_facts {hash : Bytes → Nat} {debug : Bool} {S : St} {T : Wa
   obtain ⟨c1, c2, c3, c4⟩ := hch.changed_spec
   have hn32 : S.mm.buckets < 2 ^ 32 := hB.wf.2.1
   obtain ⟨hbk, hnd, hCn, hCr⟩ := chain_core hB hC hch
-  refine ⟨sortNat a.changed, ?_, ?_, ?_, ?_, ?_, ?_, ?_, ?_, ?_, hbk, hnd, ?_, ?_, ?_, v7⟩
+  refine ⟨sortNat a.changed, ?_, ?_, ?_, ?_, ?_, ?_, ?_, ?_, ?_, hbk, hnd, ?_, ?_, ?_, v7, hch.lengths.1, hch.src_spec⟩
   · exact hCn
   · exact hCr
   · intro p hp
